@@ -516,7 +516,7 @@ func (c *Ctx) RuleRecvCopy() *Result {
 				what := ""
 				switch x := rr.(type) {
 				case *ssa.Store:
-					if x.Addr == ssa.Value(fa) {
+					if x.Addr == ssa.Value(fa) && !c.copyFieldReadLater(cell, fa, x) {
 						what = "assignment to " + fieldName(fa)
 					}
 				case *ssa.Call:
@@ -548,6 +548,62 @@ func (c *Ctx) RuleRecvCopy() *Result {
 	res.Instances++
 	res.ok("repository:methods with value receivers", "-", fmt.Sprintf("%d lost updates of a receiver copy found", n))
 	return res
+}
+
+// copyFieldReadLater: after the store st into field fa of the receiver copy the method itself reads
+// that field again (a working copy that is normalised and then used): the update is not lost, it
+// was never meant to leave the method.
+func (c *Ctx) copyFieldReadLater(cell *ssa.Alloc, fa *ssa.FieldAddr, st *ssa.Store) bool {
+	samePath := func(a, b *ssa.FieldAddr) bool {
+		for {
+			if a.Field != b.Field {
+				return false
+			}
+			pa, okA := a.X.(*ssa.FieldAddr)
+			pb, okB := b.X.(*ssa.FieldAddr)
+			if okA != okB {
+				return false
+			}
+			if !okA {
+				return a.X == b.X
+			}
+			a, b = pa, pb
+		}
+	}
+	found := false
+	allInstrs(cell.Parent(), func(in ssa.Instruction) {
+		ld, ok := in.(*ssa.UnOp)
+		if !ok || ld.Op != token.MUL || found {
+			return
+		}
+		other, ok := ld.X.(*ssa.FieldAddr)
+		if !ok || !samePath(other, fa) {
+			return
+		}
+		// a read that can follow the store: in a block the store's block reaches, or later in its block
+		if ld.Block() == st.Block() {
+			if instrIndex(ld) > instrIndex(st) {
+				found = true
+			}
+			return
+		}
+		seen := map[*ssa.BasicBlock]bool{}
+		stack := append([]*ssa.BasicBlock{}, st.Block().Succs...)
+		for len(stack) > 0 {
+			b := stack[len(stack)-1]
+			stack = stack[:len(stack)-1]
+			if seen[b] {
+				continue
+			}
+			seen[b] = true
+			if b == ld.Block() {
+				found = true
+				return
+			}
+			stack = append(stack, b.Succs...)
+		}
+	})
+	return found
 }
 
 // ---------- IDX-CALL ----------
